@@ -116,6 +116,24 @@ def one(cases, rng, tier, d, rep, dtname):
         for o in ops:
             toks += tt_tokens(o)
         cases.append(Case(J("cat", toks), impl, chk_tt(box, lambda dens=dens, dim=dim: tn.cat(dens, dim), dt, Rc, Nc), "cat/n%d/dim%d/%s" % (nop, dim, tag), True))
+    # --- cat with the SAME object in several positions (tiling: cat((a, a)), cat((a, b, a))): positions are what counts, not identities
+    for dim in sorted({0, d - 1}):
+        Ny = list(N); Ny[dim] = rng.randint(1, 3)
+        yb = rand_tt(rng, Ny, rand_ranks(rng, d, 2), dt)
+        dyb = dense_of(yb)
+        for pat in ("aa", "aba"):
+            if pat == "aa":
+                box, impl = boxed(lambda x=x, dim=dim: torchtt.cat((x, x), dim))
+                ops2, dens2 = [x, x], [dx, dx]
+            else:
+                box, impl = boxed(lambda x=x, yb=yb, dim=dim: torchtt.cat((x, yb, x), dim))
+                ops2, dens2 = [x, yb, x], [dx, dyb, dx]
+            Nc = list(N); Nc[dim] = sum(o.N[dim] for o in ops2)
+            Rc = [1] + [sum(o.R[i] for o in ops2) for i in range(1, d)] + [1]
+            toks = [dim, len(ops2)]
+            for o in ops2:
+                toks += tt_tokens(o)
+            cases.append(Case(J("cat", toks), impl, chk_tt(box, lambda dens2=dens2, dim=dim: tn.cat(dens2, dim), dt, Rc, Nc), "cat/same-object-%s/dim%d/%s" % (pat, dim, tag), True))
     # --- pad, tensor branch: every trailing subset, widths incl. 0, fill 0 / non-zero
     for npad in range(1, d + 1):
         if tier == "quick" and rng.random() < 0.3 and npad not in (1, d):
